@@ -2377,9 +2377,11 @@ func (resp *Response) writeBodyStream(w *bufio.Writer, sendBody bool) (err error
 			}
 			if err == nil && sendBody {
 				err = writeBodyChunked(w, resp.bodyStream)
-			}
-			if err == nil {
-				err = resp.Header.writeTrailer(w)
+				if err == nil {
+					// The trailer section is part of the chunked body:
+					// it must not follow a response without body (HEAD, 204, 304).
+					err = resp.Header.writeTrailer(w)
+				}
 			}
 		}
 	}
